@@ -481,3 +481,100 @@ func init() {
 }
 
 var _ = sort.Strings
+
+// ---------------------------------------------------------------------------------------------
+// C13 with large payloads (64 KiB + a few bytes, 1 byte, a multi-line block): two writers, an interval
+// boundary at any clock read, P <= 1. Every payload is in exactly one file, whole and once, and has been
+// handed to the file in ONE write call (a payload split over several calls can be torn by a concurrent
+// writer or a crash).
+// ---------------------------------------------------------------------------------------------
+
+func init() {
+	payload := func(tag string, n int) string {
+		return tag + ":" + strings.Repeat(tag[:1], n) + ":" + tag + "\n"
+	}
+	pl := [][]string{
+		{payload("A0", 65536), payload("A1", 0), "A2:line1\nA2:line2\nA2:end\n"},
+		{payload("B0", 1), payload("B1", 70000)},
+	}
+	register("C13", "c13/roll/large-payloads", "qt", func(tier string) *zzvrt.Scenario {
+		b := zzvrt.Bounds{Preempt: 1, Horizon: 5000}
+		b.Env[zzvrt.SeamTick] = 1
+		if tier == "thorough" {
+			b.Preempt = 2
+			b.Env[zzvrt.SeamTick] = 2
+		}
+		var errS string
+		return &zzvrt.Scenario{
+			Before: func() { resetAll(); errS = "" },
+			Opts:   zzvrt.RunOpts{Bounds: b, Start: rollStart, TickStep: time.Hour},
+			Body: func() {
+				x := zzvrt.Cur()
+				a := &log.RollingFileAppender{FileDir: rollDir, FileName: rollName, Rotation: log.TimeRotation{Interval: time.Hour}, MaxAge: 24}
+				zzvrt.Atomic(func() {
+					x.FS.MkdirAll(rollDir)
+					if err := a.Start(); err != nil {
+						errS = err.Error()
+					}
+				})
+				if errS != "" {
+					return
+				}
+				done := 0
+				for wi, ps := range pl {
+					ps := ps
+					zzvrt.GoNamed(fmt.Sprintf("writer-%d", wi), func() {
+						for _, p := range ps {
+							a.Write([]byte(p))
+						}
+						done++
+					})
+				}
+				zzvrt.WaitUntil(func() bool { return done == len(pl) })
+				a.Stop()
+			},
+			Check: func(x *zzvrt.Exec) (string, []zzvrt.Violation) {
+				key := "large payloads"
+				if x.Outcome != "" {
+					return x.Outcome, []zzvrt.Violation{{Clause: "no-" + strings.SplitN(x.Outcome, ":", 2)[0], Key: key, Detail: x.Outcome}}
+				}
+				if errS != "" {
+					return errS, []zzvrt.Violation{{Clause: "setup", Key: key, Detail: errS}}
+				}
+				var v []zzvrt.Violation
+				var files []string
+				total := 0
+				for _, name := range x.FS.List(rollDir) {
+					files = append(files, string(x.FS.Nodes[rollDir+"/"+name].Data))
+					total += len(files[len(files)-1])
+				}
+				want := 0
+				for _, ps := range pl {
+					for _, p := range ps {
+						want += len(p)
+						n := 0
+						for _, f := range files {
+							n += strings.Count(f, p)
+						}
+						if n != 1 {
+							v = append(v, zzvrt.Violation{Clause: "write-lost", Key: key, Detail: fmt.Sprintf("payload %q... (%d bytes) is %d times whole in the files", p[:6], len(p), n)})
+						}
+						calls := 0
+						for _, c := range x.FS.Log {
+							if c.Op == "write" && c.Data == p {
+								calls++
+							}
+						}
+						if calls != 1 {
+							v = append(v, zzvrt.Violation{Clause: "write-split", Key: key, Detail: fmt.Sprintf("payload %q... (%d bytes) was handed to the file in %d whole write calls (want exactly one)", p[:6], len(p), calls)})
+						}
+					}
+				}
+				if total != want {
+					v = append(v, zzvrt.Violation{Clause: "torn-line", Key: key, Detail: fmt.Sprintf("the files hold %d bytes, the payloads are %d bytes", total, want)})
+				}
+				return fmt.Sprintf("%d files %d bytes", len(files), total), v
+			},
+		}
+	})
+}
